@@ -83,3 +83,18 @@ PROPS["C05"] = {
              "NULL in 1/3 of cases. Non-trivial = URI with >= 3 emitted pieces and at least one capacity strictly inside the text (0 < c <= N); distinct by case (each covers all its capacities)"),
     "assumptions": ["int accumulation beyond INT_MAX would need a multi-gigabyte URI and is out of reach"],
 }
+
+PROPS["C06"] = {
+    "level": "exploration",
+    "technique": "property-based testing (rapidcheck): differential against an RFC 3986 section 5.2 reference model computed from the two texts",
+    "level_text": ("Correlated (base, reference) pairs are resolved by the library and by an independent string/vector model of section 5.2.2 (merge 5.2.3, segment-list dot removal, "
+                   "'//' guard, identical-scheme option); scheme, user info, host text/kind/value, port, path text, query and fragment are compared with presence, plus the "
+                   "recomposed text, structural well-formedness and the relative-base error code. The model is self-tested on all RFC 5.4 examples and against literal 5.2.4 on rooted paths."),
+    "level_note": "Trusted: M_split/M_resolve. Where the guard dot is needed both the rooted and the rootless spelling of 'one . segment in front' are accepted (counted as relaxed).",
+    "quick": {"cases": 60000},
+    "thorough": {"cases": 1500000, "ceiling_s": 3000},
+    "rule": ("pairs from one shared pool of schemes/authorities/segments (base scheme-less in ~10%); references: relative-path 35%, absolute-path 20%, same-scheme absolute 15%, "
+             "other scheme 10%, network-path 10%, empty path 10%; both options; three API forms; both character types. Non-trivial = merge or absolute-path branch taken and a dot or "
+             "empty segment took part; distinct by (base, ref, option)"),
+    "assumptions": ["paths with more than ~12 segments are rare", "schemes differing only in letter case are judged with the option off (the statement says 'equals')"],
+}
